@@ -102,7 +102,7 @@ KNOWN = {
                        # + the ownership fixes of C20 (aux array pre-filled with nullptr, key stored before the value block is
                        # requested, value block sized to the stored length incl. collapsed quotes): same keys and values stored
                        "6257dfdf913ff1b2"},
-    "aux_write_loop": {"5354cbc54052233d"},
+    "aux_write_loop": {"5354cbc54052233d", "2ffe00d867f25bea"},   # second: with repo patch C08_2 (coefficient write_pix moved between the aux loop and the knot loop; the loop itself is unchanged)
     "c_get_key": {"ca9051007a02b999"},
     "c_read_key": {"0c955a41c4f2a000"},
     "c_write_key": {"355da0b52c5f5452"},
